@@ -66,6 +66,9 @@ Inductive action :=
 | NeedsArray (what : string)                    (* .ravel() / .astype() / .shape read off the argument as passed *)
 | NeedsNumeric (what : string)                  (* arithmetic on the argument before any cast to float *)
 | Use (what : string)                           (* any other read of the argument: terminal *)
+| MayRefit                                      (* a call that does not receive the argument (re)fits a model on the other,
+                                                   valid, arguments: no effect on the argument; it may end the call with an
+                                                   OptimizationError before the argument is looked at (see C11Check.check_case) *)
 | IfUnfitted (body : list action)               (* if not self._is_fitted: body *)
 | IfFitted (body : list action)
 | MaybeSkip (body : list action)                (* for-loop whose trip count depends on a parameter (may be 0) *)
@@ -95,6 +98,7 @@ Fixpoint run_action (fitted skip : bool) (a : adesc) (act : action) {struct act}
   | NeedsArray w => if is_array (a_cont a) then None else Some (Crashed w)
   | NeedsNumeric w => match a_dt a with DStr => Some (CrashedTE w) | _ => None end
   | Use w => Some (Used w)
+  | MayRefit => None
   | IfUnfitted body => if fitted then None else run_list body
   | IfFitted body => if fitted then run_list body else None
   | MaybeSkip body => if skip then None else run_list body
